@@ -8,6 +8,7 @@ import (
 
 	"verif/internal/corpus"
 	"verif/internal/eqv"
+	"verif/internal/gentypes"
 	"verif/internal/h"
 	"verif/internal/iox"
 )
@@ -40,6 +41,10 @@ func TestCheck(t *testing.T) {
 		"map keys never contain NaN, pointers or nil; list.List only behind a pointer",
 		"under a Long/Real setting that cannot represent a number held in an interface{} position the case is counted as undetermined, not checked",
 	})
+	for k, v := range manyContainers() {
+		k, v := k, v
+		r.Case(fmt.Sprintf("many-containers/%d/%s", k, v.Type()), func(c *h.Case) { manyCase(c, k, v) })
+	}
 	for _, ue := range corpus.Universe(r.Seed, r.Pick(10, 24), r.Pick(1500, 30000), r.Pick(5, 7)) {
 		ue := ue
 		r.Case(ue.Label, func(c *h.Case) {
@@ -52,6 +57,86 @@ func TestCheck(t *testing.T) {
 			}
 		})
 	}
+}
+
+// manyContainers: values made of more than 10 000 lists, maps or objects in total (wide, not
+// deep): whatever the decoder counts per container must be given back when the container ends.
+func manyContainers() []reflect.Value {
+	const n = 10500
+	var out []reflect.Value
+	arrs := make([][3]int, n)
+	pos := make([]struct{ Pos [3]float32 }, n)
+	marr := map[int][2]int16{}
+	inner := make([][]int, n)
+	maps := make([]map[string]int, n)
+	objs := make([]*gentypes.One, n)
+	vals := make([]gentypes.One, n)
+	ifs := make([]interface{}, n)
+	mm := map[int]map[int]int{}
+	parr := make([]*[2]string, n)
+	for i := 0; i < n; i++ {
+		arrs[i] = [3]int{i, -i, 1}
+		pos[i].Pos = [3]float32{float32(i), 0.5, -1}
+		marr[i] = [2]int16{int16(i), 1}
+		inner[i] = []int{i}
+		maps[i] = map[string]int{"k": i}
+		objs[i] = &gentypes.One{A: i}
+		vals[i] = gentypes.One{A: -i}
+		switch i % 4 {
+		case 0:
+			ifs[i] = []interface{}{i}
+		case 1:
+			ifs[i] = map[string]interface{}{"k": i}
+		case 2:
+			ifs[i] = &gentypes.One{A: i}
+		default:
+			ifs[i] = [2]int{i, i}
+		}
+		mm[i] = map[int]int{i: i}
+		parr[i] = &[2]string{"a", "b"}
+	}
+	for _, x := range []interface{}{arrs, pos, marr, inner, maps, objs, vals, ifs, mm, parr} {
+		out = append(out, reflect.ValueOf(x))
+	}
+	return out
+}
+
+func manyCase(c *h.Case, k int, v reflect.Value) {
+	r := c.R
+	for _, simple := range []bool{true, false} {
+		for enc := 0; enc < iox.NEnc; enc += 2 {
+			var data []byte
+			var err error
+			p, st := h.Try(func() { data, err = iox.Encode(v.Interface(), simple, enc) })
+			r.Eval(1)
+			rep := map[string]interface{}{"type": v.Type().String(), "elements": v.Len(), "simple": simple}
+			if p != nil || err != nil {
+				c.Violation("many-containers-encode:"+v.Type().String(), fmt.Sprintf("panic=%v err=%v\n%s", p, err, h.TrimStack(st)), rep)
+				return
+			}
+			for dec := 0; dec < iox.NDec; dec++ {
+				dst := reflect.New(v.Type())
+				p, st = h.Try(func() { err = iox.Decode(append([]byte(nil), data...), dst.Interface(), simple, iox.Setting{}, dec) })
+				r.Eval(1)
+				if p != nil {
+					c.Violation("many-containers-decode-panic:"+v.Type().String(), fmt.Sprintf("%v\n%s", p, h.TrimStack(st)), rep)
+					continue
+				}
+				if err != nil && !iox.EOFOK(err) {
+					c.Violation("many-containers-decode-error:"+v.Type().String(), fmt.Sprintf("%s of a value with %d containers: %v", iox.DecName(dec), v.Len(), err), rep)
+					continue
+				}
+				if iox.ContainsInterface(v.Type()) {
+					if why := eqv.DEqual(eqv.Denote(v.Interface()), eqv.DenoteValue(dst.Elem())); why != "" {
+						c.Violation("many-containers-mismatch:"+v.Type().String(), why, rep)
+					}
+				} else if why := eqv.Equal(v, dst.Elem()); why != "" {
+					c.Violation("many-containers-mismatch:"+v.Type().String(), why, rep)
+				}
+			}
+		}
+	}
+	r.Distinct(fmt.Sprintf("many|%d", k))
 }
 
 func roundTrips(c *h.Case, ue universeEntry, j int, v reflect.Value, hasIface bool) {
